@@ -129,12 +129,41 @@ func runC03(c *Ctx, idx int, o *Obs) {
 		return
 	}
 	k := 5 + r.Intn(steps-4)
+	// "sandwich" histories: a rearrangement is applied, the same tree object is re-rooted / re-ordered one to three
+	// times, and only then is the rearrangement undone
+	sandwich := idx%6 == 2 && !h.singles
+	phase := 0
+	between := 1 + r.Intn(3)
 	kinds := map[string]bool{}
 	succ := 0
 	prev := "start"
 	o.Sample = Trunc(start, 1500)
 	for s := 0; s < k; s++ {
 		o.Sample = Trunc(start, 1500) + " :: " + Trunc(strings.Join(h.log, " ; "), 2500) + " ; <next op crashed if this case panicked>"
+		if sandwich {
+			switch {
+			case phase == 0:
+				h.only, h.forceKeep = map[string]bool{"NNI": true}, true
+			case phase <= between:
+				h.only, h.forceKeep = map[string]bool{"Reroot": true, "RotateInternalNodes": true, "SortNeighborsByTips": true, "Decorate": true}, false
+			case phase == between+1:
+				h.only = map[string]bool{"NNI.UndoLater": true}
+			default:
+				h.only, sandwich = nil, false
+			}
+			phase++
+			if h.only != nil && h.only["NNI"] {
+				// needs a branch whose two ends have three neighbours
+				n := 0
+				(&tree.NNIRearranger{}).Rearrange(h.t, func(tree.Rearrangement) bool { n++; return false })
+				if n == 0 {
+					h.only, sandwich = nil, false
+				}
+			}
+			if h.only != nil && h.only["NNI.UndoLater"] && (h.pending == nil || h.pendingOn != h.t || !h.pendingOK) {
+				h.only, sandwich = nil, false
+			}
+		}
 		name, desc, ok := h.step()
 		if name == "" {
 			break
